@@ -127,6 +127,54 @@ def gen_parked_stop(rng, sid):
     return sc
 
 
+PRODUCE_RETRIABLE = [3, 5, 6, 7, 19, 20, 56]      # = kafka_produce_retriable of proof/C02_dispatch.v
+
+
+def check_produce_dispatch(ck):
+    """the translated produceDispatch (evaluated inside Coq) against the real SendProduceReqHandler.handle_response
+    for every code -1..100 x idempotent x expired, plus the property's clause stated on the real handler"""
+    from common import parse_coq_value, parse_eval_outputs, run_impl
+    codes = list(range(-1, 101))
+    combos = [(i, e) for i in (True, False) for e in (True, False)]
+    cases = [{"code": c, "idem": i, "expired": e} for (i, e) in combos for c in codes]
+    impl = run_impl("c01_dispatch_impl.py", {"cases": cases}, timeout=300)["out"]
+    zl = "; ".join(f"({c})" if c < 0 else str(c) for c in codes)
+    body = "\n".join(f"Eval vm_compute in (map (fun c => produceDispatch c {str(i).lower()} {str(e).lower()}) [{zl}])."
+                     for (i, e) in combos) + "\n"
+    okc, out = ck.coq_eval("c02_dispatch", ["DispatchActs", "ProduceDispatch"], body)
+    vals = [parse_coq_value(v) for v in parse_eval_outputs(out)] if okc else []
+    if len(vals) != len(combos):
+        ck.obligation("correspondence:produce-dispatch-evaluated-in-coq", False, out[-400:])
+        return
+
+    def flat(x):
+        if isinstance(x, str):
+            return x
+        if isinstance(x, (list, tuple)):
+            if len(x) == 2 and x[0] == "ctor":
+                return flat(x[1])
+            return " ".join(flat(y) for y in x)
+        return str(x)
+    mism = 0
+    k = 0
+    for (i, e), col in zip(combos, vals):
+        for c, m in zip(codes, col):
+            r = impl[k]
+            k += 1
+            model = ["ADone" if a == "ASuccess" else a for a in (flat(a) for a in m)]
+            ck.count(key=("produce-dispatch", c, i, e), nontrivial=c in PRODUCE_RETRIABLE)
+            if model != r["acts"] or r["exc"]:
+                mism += 1
+                if mism <= 3:
+                    ck.obligation(f"correspondence:produce-dispatch:{c}:{i}:{e}", False, f"model {model} vs real {r}")
+            if c in PRODUCE_RETRIABLE and i and ("AFail" in r["acts"] or "AReenqueue" not in r["acts"]):
+                ck.violation(f"idempotent producer: a Produce reply with the retriable error code {c} "
+                             f"({'expired' if e else 'fresh'} batch) fails the batch instead of retrying it "
+                             f"(handler did {r['acts']})", {"code": c, "idempotent": i, "expired": e, "observed": r},
+                             signature=f"produce-dispatch-fails-retriable:{c}")
+    ck.obligation("correspondence:produce-dispatch-model-vs-real-handler", mism == 0, f"{mism} differ of {len(cases)}")
+
+
 def monitor(ck, sc, r):
     bad = 0
 
@@ -199,6 +247,9 @@ def monitor(ck, sc, r):
 
 def run(ck: Check):
     ck.trusted += [
+        "translator/dispatch2gallina.py for SendProduceReqHandler.handle_response/_can_retry and the retriable / "
+        "invalid_metadata attributes of errors.py (validated per run against the real handler, codes -1..100 x "
+        "idempotent x expired); kafka_produce_retriable is written by hand",
         "Coq 8.16.1 kernel; vm_compute for case evaluation and Examples",
         "model/C02_Done.v is hand-written; tied to MessageBatch.done/done_noack/failure by differential "
         "testing on every run",
@@ -212,9 +263,10 @@ def run(ck: Check):
                       "produce v0..v7 brokers, CreateTime/LogAppendTime topics, explicit/default timestamps, faults "
                       "as in C01, flush() at a random accept; one evaluation = one done() case or one send future; "
                       "non-trivial = batch of >1 record or a run with at least one fault")
-    ck.regenerate(["IncrSeq"])
+    ck.regenerate(["IncrSeq", "ProduceDispatch"])
     ok_p, _ = ck.coq_props("C02")
     check_done(ck)
+    check_produce_dispatch(ck)
     rng = random.Random(ck.seed * 104729 + 2)
     scs = []
     for fn in sorted(glob.glob(os.path.join(VERIF, "corpus", "C02", "*.json"))):
